@@ -58,6 +58,11 @@ theorem Reads.split {s : RState} {a b : List Byte} (h : Reads s (a ++ b)) :
     obtain ⟨l0, hl0, rfl⟩ := hl'
     have := hl l0 hl0; simp at this; omega
 
+theorem Reads.data_length {s : RState} {bs : List Byte} (h : Reads s bs) :
+    (s.consume bs.length).data.length + bs.length = s.data.length := by
+  obtain ⟨_, ⟨rest, hd⟩, _⟩ := h
+  simp [RState.consume, hd]; omega
+
 theorem consume_consume (s : RState) (a b : Nat) : (s.consume a).consume b = s.consume (a + b) := by
   cases s with
   | mk d l e =>
@@ -103,7 +108,7 @@ theorem sdec_enc (env : Env) (hE : EnvOk env) :
       simp only [enc] at hr
       have hs := sread_reads' s w (leBytes w n) (by simp) hr
       rcases h with h | h | h | h | h
-      · subst h; simp [sdec, enc, hs, ofLe_leBytes w n hn]
+      · obtain ⟨h, _⟩ := h; subst h; simp [sdec, enc, hs, ofLe_leBytes w n hn]
       · obtain ⟨rfl, rfl, h1⟩ := h
         have : n = 0 ∨ n = 1 := by omega
         rcases this with rfl | rfl <;> simp [sdec, enc, Facts.szBool, hs, ofLe_leBytes 1 _ hn]
@@ -131,26 +136,26 @@ theorem sdec_enc (env : Env) (hE : EnvOk env) :
       match f, hf with
       | f+1, hf =>
       simp only [wt] at h
-      obtain ⟨t, rfl, hl, hw⟩ := h
+      obtain ⟨t, rfl, hl, hw, hp⟩ := h
       simp only [rank] at hf
       have hf' : rankList vs < f := by omega
       simp only [enc] at hr
       obtain ⟨h1, h2⟩ := hr.split
       simp only [length_leBytes] at h2
-      simp only [sdec, sreadU32_reads s vs.length hl h1, sdecN_enc env hE vs t f _ hw hf' h2, enc,
+      simp only [sdec, sreadU32_reads s vs.length hl h1, sdecN_enc env hE vs t f _ hw hp hf' h2, enc,
         consume_consume, List.length_append, length_leBytes]
   | .map kvs, ty, f, s, h, hf, hr => by
       match f, hf with
       | f+1, hf =>
       simp only [wt] at h
-      obtain ⟨k, t, rfl, _, hl, hw, hd⟩ := h
+      obtain ⟨k, t, rfl, hkt, hl, hw, hd⟩ := h
       simp only [rank] at hf
       have hf' : rankKVs kvs < f := by omega
       simp only [enc] at hr
       obtain ⟨h1, h2⟩ := hr.split
       simp only [length_leBytes] at h2
       simp only [sdec, sreadU32_reads s kvs.length hl h1,
-        sdecEntries_enc env hE kvs k t f _ [] hw hd (by simp) hf' h2, enc, List.nil_append,
+        sdecEntries_enc env hE kvs k t f _ [] hkt hw hd (by simp) hf' h2, enc, List.nil_append,
         consume_consume, List.length_append, length_leBytes]
   | .struct fs, ty, f, s, h, hf, hr => by
       match f, hf with
@@ -239,26 +244,31 @@ theorem sdec_enc (env : Env) (hE : EnvOk env) :
       congr 2; omega
 
 theorem sdecN_enc (env : Env) (hE : EnvOk env) :
-    (vs : List Val) → ∀ (t : Ty) (f : Nat) (s : RState), wtList env t vs → rankList vs < f → Reads s (encList vs) →
+    (vs : List Val) → ∀ (t : Ty) (f : Nat) (s : RState), wtList env t vs → Progress vs → rankList vs < f →
+      Reads s (encList vs) →
       sdecN (sdec f env t) vs.length s = (.val vs, s.consume (encList vs).length)
-  | [], _, _, s, _, _, _ => by simp [sdecN, encList, consume_zero]
-  | v :: vs, t, f, s, h, hf, hr => by
+  | [], _, _, s, _, _, _, _ => by simp [sdecN, encList, consume_zero]
+  | v :: vs, t, f, s, h, hp, hf, hr => by
       simp only [wtList] at h
       simp only [rankList] at hf
       have h1 : rank v < f := by omega
       have h2 : rankList vs < f := by omega
       simp only [encList] at hr
       obtain ⟨hr1, hr2⟩ := hr.split
-      simp only [List.length_cons, sdecN, sdec_enc env hE v t f s h.1 h1 hr1,
-        sdecN_enc env hE vs t f _ h.2 h2 hr2, consume_consume, encList, List.length_append]
+      have hg : ¬ ((s.consume (enc v).length).data.length = s.data.length ∧ loopSlack ≤ vs.length) := by
+        intro ⟨hl, hs⟩
+        have := hr1.data_length
+        exact hp.head_guard ⟨by omega, hs⟩
+      simp only [List.length_cons, sdecN, sdec_enc env hE v t f s h.1 h1 hr1, hg, if_false,
+        sdecN_enc env hE vs t f _ h.2 hp.tail h2 hr2, consume_consume, encList, List.length_append]
 
 theorem sdecEntries_enc (env : Env) (hE : EnvOk env) :
     (kvs : List (Val × Val)) → ∀ (k t : Ty) (f : Nat) (s : RState) (acc : List (Val × Val)),
-      wtKVs env k t kvs → keysDistinct k kvs → (∀ a ∈ acc, ∀ kv ∈ kvs, keyEq k a.1 kv.1 = false) →
+      isKeyTy k = true → wtKVs env k t kvs → keysDistinct k kvs → (∀ a ∈ acc, ∀ kv ∈ kvs, keyEq k a.1 kv.1 = false) →
       rankKVs kvs < f → Reads s (encKVs kvs) →
       sdecEntries k (sdec f env k) (sdec f env t) kvs.length s acc = (.val (acc ++ kvs), s.consume (encKVs kvs).length)
-  | [], _, _, _, s, _, _, _, _, _, _ => by simp [sdecEntries, encKVs, consume_zero]
-  | (a, b) :: kvs, k, t, f, s, acc, h, hd, hacc, hf, hr => by
+  | [], _, _, _, s, _, _, _, _, _, _, _ => by simp [sdecEntries, encKVs, consume_zero]
+  | (a, b) :: kvs, k, t, f, s, acc, hkt, h, hd, hacc, hf, hr => by
       simp only [wtKVs] at h
       simp only [keysDistinct] at hd
       simp only [rankKVs] at hf
@@ -274,9 +284,16 @@ theorem sdecEntries_enc (env : Env) (hE : EnvOk env) :
       simp only [encKVs, List.append_assoc] at hr
       obtain ⟨hr1, hr23⟩ := hr.split
       obtain ⟨hr2, hr3⟩ := hr23.split
+      have hg : ¬ (((s.consume (enc a).length).consume (enc b).length).data.length = s.data.length ∧
+          loopSlack ≤ kvs.length) := by
+        intro ⟨hl, _⟩
+        have e1 := hr1.data_length
+        have e2 := hr2.data_length
+        have := key_enc_pos env k hkt a h.1
+        omega
       simp only [List.length_cons, sdecEntries, sdec_enc env hE a k f s h.1 h1 hr1,
-        sdec_enc env hE b t f _ h.2.1 h2 hr2, mapInsert_fresh k a b acc hfresh]
-      rw [sdecEntries_enc env hE kvs k t f _ (acc ++ [(a, b)]) h.2.2 hd.2 hacc' h3 hr3]
+        sdec_enc env hE b t f _ h.2.1 h2 hr2, mapInsert_fresh k a b acc hfresh, hg, if_false]
+      rw [sdecEntries_enc env hE kvs k t f _ (acc ++ [(a, b)]) hkt h.2.2 hd.2 hacc' h3 hr3]
       simp only [consume_consume, encKVs, List.length_append, List.append_assoc, List.singleton_append, Nat.add_assoc]
 
 theorem sdecFields_enc (env : Env) (hE : EnvOk env) :
